@@ -30,7 +30,7 @@ struct ev {
   unsigned enq_cas_ok_n, deq_cas_ok_n; uint64_t cas_exp, cas_des, cas_clock; size_t cas_validated_idx; uint64_t cas_validated_val, cas_validated_clock;
   unsigned pos_store_n;
   uint64_t last_enq_load, last_deq_load; _Bool full_at_deq_load, empty_at_enq_load;
-  unsigned ctor_n, dtor_n, succ_n, asT_n; size_t ctor_idx, dtor_idx, succ_idx; uint64_t ctor_clock, dtor_clock, succ_clock;
+  unsigned ctor_n, dtor_n, succ_n, asT_n; size_t ctor_idx, dtor_idx, succ_idx, asT_idx; value asT_val; uint64_t ctor_clock, dtor_clock, succ_clock;
   unsigned arg_moved;
 } ev;
 struct ev nondet_ev(void);
@@ -81,11 +81,11 @@ static void xv_placement_new_move(storage_t* s, value* src) {      /* new (&v) T
   ev.ctor_n++; ev.ctor_idx = storage_index(s); ev.ctor_clock = ++xv_clock;
   if (src == g_arg) ev.arg_moved++;
 }
-static value* xv_as_T(storage_t* s) { LIFETIME(s->alive); ev.asT_n++; return &s->v; }     /* reinterpret_cast<T&>(c->data): must refer to a live T */
+static value* xv_as_T(storage_t* s) { LIFETIME(s->alive); ev.asT_n++; ev.asT_idx = storage_index(s); ev.asT_val = s->v; return &s->v; }     /* reinterpret_cast<T&>(c->data): must refer to a live T */
 static void xv_destroy_T(value* p) {                               /* p->~T() */
   storage_t* s = (storage_t*)p;
   LIFETIME(s->alive);                                              /* double destruction */
-  s->alive = 0; s->dtor_n++;
+  s->alive = 0; s->dtor_n++; s->v = nondet_u64();                  /* the storage of a destroyed object is indeterminate */
   ev.dtor_n++; ev.dtor_idx = storage_index(s); ev.dtor_clock = ++xv_clock;
 }
 #define XV_PLACEMENT_NEW_MOVE(dst, src) xv_placement_new_move((dst), (src))
@@ -97,15 +97,15 @@ static void xv_destroy_T(value* p) {                               /* p->~T() */
 static _Bool is_power_of_two(size_t v) { return (v & (v - 1)) == 0; }
 
 /* ------------------------------------------------------------------ representation invariant Inv_V: builder and checker */
-size_t in_n, in_op, in_deq, in_count; value in_val;        /* replay inputs */
+size_t in_n, in_op, in_deq, in_count, in_mid; value in_val;        /* replay inputs */
 struct vbq g_q0;                                            /* pre-state snapshot */
-static void build(struct vbq* q, size_t deq, size_t count, _Bool mid) {
+static void build(struct vbq* q, size_t deq, size_t count, size_t mid) {     /* mid: bit i set = the operation on offset i is claimed but not finished (SOLO only) */
   q->index_mask = N - 1; q->dequeue_pos = deq; q->enqueue_pos = deq + count;
   for (size_t k = 0; k < N; k++) {                     /* physical cell k holds the position p of the window [deq, deq+N) with p & (N-1) == k */
     size_t i = (k - deq) & (N - 1), p = deq + i; cell* c = &q->cells[k];
     c->data.v = nondet_u64(); c->data.ctor_n = 0; c->data.dtor_n = 0;
-    if (i < count) { c->sequence = p + 1; c->data.alive = 1; if (mid && nondet_bool()) { c->sequence = p; c->data.alive = nondet_bool(); } }       /* mid: push of p claimed, not yet published */
-    else { c->sequence = p; c->data.alive = 0; if (mid && nondet_bool()) { c->sequence = p - N + 1; c->data.alive = nondet_bool(); } }                /* mid: pop of p-N claimed, cell not yet released */
+    if (i < count) { c->sequence = p + 1; c->data.alive = 1; if ((mid >> i) & 1) { c->sequence = p; c->data.alive = nondet_bool(); } }       /* mid: push of p claimed, not yet published */
+    else { c->sequence = p; c->data.alive = 0; if ((mid >> i) & 1) { c->sequence = p - N + 1; c->data.alive = nondet_bool(); } }                /* mid: pop of p-N claimed, cell not yet released */
   }
 }
 static _Bool inv_pos(struct vbq* q, size_t deq, size_t count) {
@@ -150,7 +150,9 @@ static void havoc_loop_state(struct vbq* self) {
 static _Bool inv_loop(struct vbq* self, size_t pos, _Bool push) {
   if (!ev_clean()) return 0;
 #ifdef XV_INT
-  if (env_mode == 1) return env_tot_enq < ENV_BUDGET && env_tot_deq < ENV_BUDGET && self->enqueue_pos - self->dequeue_pos <= N;
+  /* monotone rely: pos is a value the position counter held earlier in this call, so the counter is ahead of it by at most what the others added since */
+  if (env_mode == 1) return env_tot_enq < ENV_BUDGET && env_tot_deq < ENV_BUDGET && self->enqueue_pos - self->dequeue_pos <= N
+                         && (push ? self->enqueue_pos - pos <= env_tot_enq : self->dequeue_pos - pos <= env_tot_deq);
   return 1;
 #else
   /* no interference: nothing has been written yet, pos is the current position */
@@ -165,6 +167,14 @@ static _Bool inv_loop(struct vbq* self, size_t pos, _Bool push) {
 #define IF_INT(x) x
 #else
 #define IF_INT(x)
+#endif
+
+/* original loops: ghost iteration counter (see TICK in unit.py); the second entry into the loop body is the violation, the path ends there */
+unsigned xv_iters;
+#ifdef XV_SOLO
+#define XV_LOOP_TICK() do { if (xv_iters >= 1) { XV_OBL("vbq.weak.terminates", 0); XV_ASSUME(0); } xv_iters++; } while (0)
+#else
+#define XV_LOOP_TICK() do { if (xv_iters >= 1) { XV_OBL("vbq.strong.seq_terminates", 0); XV_ASSUME(0); } xv_iters++; } while (0)
 #endif
 
 /* which lowering of the retry loop a run uses: the cut one (partial correctness, any number of retries) or the original one (with unwinding assertion) */
@@ -199,9 +209,10 @@ static _Bool vbq_tpd_success(value* result_p, value* v_p); static _Bool vbq_tpd_
 static void start(struct vbq* q, size_t op, _Bool mid) {
   in_n = N; in_op = op;
   in_deq = nondet_size(); in_count = nondet_size(); XV_ASSUME(in_count <= N);
-  build(q, in_deq, in_count, mid);
+  in_mid = mid ? nondet_size() : 0;
+  build(q, in_deq, in_count, in_mid);
   g_q0 = *q; mon_self = q;
-  struct ev z = {0}; ev = z; xv_clock = 0;
+  struct ev z = {0}; ev = z; xv_clock = 0; xv_iters = 0;
 }
 
 /* ---- SEQ: push from any Inv_V state */
@@ -342,7 +353,7 @@ void hname(void) { \
     size_t t = ev.cas_exp & (N - 1); \
     XV_OBL("vbq.pop.commit", ev.deq_cas_ok_n == 1 && ev.cas_des == ev.cas_exp + 1); \
     XV_OBL("vbq.pop.commit", ev.cas_validated_idx == t && ev.cas_validated_val == ev.cas_exp + 1 && ev.cas_validated_clock < ev.cas_clock); \
-    XV_OBL("vbq.pop.commit", ev.dtor_n == 1 && ev.dtor_idx == t && ev.asT_n == 1 && ev.cas_clock < ev.dtor_clock && res == q.cells[t].data.v); \
+    XV_OBL("vbq.pop.commit", ev.dtor_n == 1 && ev.dtor_idx == t && ev.asT_n == 1 && ev.asT_idx == t && ev.cas_clock < ev.dtor_clock && res == ev.asT_val); \
     XV_OBL("vbq.pop.commit", ev.seq_store_n == 1 && ev.seq_store_idx == t && ev.seq_store_val == ev.cas_exp + N && ev.dtor_clock < ev.seq_store_clock); \
     XV_OBL("vbq.sync.cell_sequence", ev.seq_store_weak_n == 0 && ev.seq_load_weak_n == 0); \
     XV_CANARY(tag ".int_ok"); \
